@@ -22,7 +22,7 @@ def suites(tier):
     s2 = src_suite("cache", [dict(id=jid("cache", cfg), func="zzH_C13_cache", cfg=cfg)], chunkSize=5)
     # every result Matcher.Loop publishes is the filter of the snapshot its search was started on
     ljobs = []
-    for tail in ((3,) if q else (0, 3)):
+    for tail in (0, 3):  # tail 0 with 4 events is the history that exposed defect K
         cfg = dict(tail=tail, initial=4, steps=4, symbolic=0)
         ljobs.append(dict(id=jid("loop", cfg), func="zzH_C08_loop", cfg=cfg, go_inline=True, coroutine_funcs=["Loop"]))
     s3 = src_suite("loop", ljobs, chunkSize=5)
